@@ -41,7 +41,7 @@ TIME_CAP = {"thorough": 840}
 # ---------------------------------------------------------------- alphabet
 CATS = ["a", "a-b", "a+b", "_a", "a.b", "A1"]
 PKGS = ["p", "p-q", "p+", "p1", "p-1xy", "p-r1x", "p-1-1xy", "p-", "p--q", "_p", "p-r1", "P"]
-VERS = ["1", "1.2", "1a", "1_p1", "1-r1", "01.02_alpha_rc3-r02", "1.2.3b_beta4", "2_pre"]
+VERS = ["1", "1.2", "1a", "1_p1", "1-r1", "01.02_alpha_rc3-r02", "1.2.3b_beta4", "2_pre", "1-r0", "1-r01", "1.0-r00"]
 OPS = ["<", "<=", "=", "~", ">=", ">"]
 SLOTS = ["", ":0", ":1", ":0/a", ":0/b", ":0=", ":=", ":*", ":a.b-c+d_e", ":_s/_t.1", ":0/a="]
 REPOS = ["", "::r1", "::r2", "::_R-x"]
@@ -236,7 +236,7 @@ def tasks(tier):
 
 # ---------------------------------------------------------------- package universe for the match comparison
 _universe_cache = {}
-U_VERSIONS = ["0.9", "1", "1.2", "1a", "1_p1", "1-r1", "2"]
+U_VERSIONS = ["0.9", "1", "1.2", "1a", "1_p1", "1-r1", "2", "1-r10", "10", "1.0", "1.0-r1", "1.00"]
 U_SLOTS = [("0", "a"), ("0", "b"), ("1", "1"), ("a.b-c+d_e", "a.b-c+d_e")]
 U_REPOS = ["r1", "r2"]
 U_USE = [((), ("x", "y", "z")), (("x",), ("x", "y", "z")), (("x", "y", "z"), ("x", "y", "z")), ((), ())]
